@@ -131,7 +131,8 @@ def comp_reps(arch, with_frozen: bool = False) -> Dict[int, Any]:
 
 # ------------------------------------------------------------------ random generator (same grammar, larger)
 def random_arch(rng: random.Random, *, dim: int, max_nodes: int, widths=(2, 3, 4, 6), kernels=(1, 2, 3, 5),
-                allow_excl=False, allow_findings=False, strided=True, reuse=True, nonzero_ops=True) -> Dict[str, Any]:
+                allow_excl=False, allow_findings=False, strided=True, reuse=True, nonzero_ops=True,
+                standalone_bn=False, explicit_sym_pad=False) -> Dict[str, Any]:
     c0 = rng.choice([1, 2, 3])
     sp = rng.choice([4, 6, 8]) if dim == 1 else rng.choice([4, 6])
     nodes: List[Dict[str, Any]] = []
@@ -163,7 +164,7 @@ def random_arch(rng: random.Random, *, dim: int, max_nodes: int, widths=(2, 3, 4
             r_ = rng.random()
             if r_ < 0.12 and sh[p_in]["sp"] - d_ * (k - 1) >= 1 and (dim == 1 or sh[p_in]["spw"] - d_ * (k - 1) >= 1):
                 nd_.update({"valid": True, "causal": False})            # un-padded convolution
-            elif r_ < 0.22 and s == 1 and k > 1 and dim == 1 and ((k - 1) * d_) % 2 == 0 and not nd_["excl"]:
+            elif explicit_sym_pad and r_ < 0.22 and s == 1 and k > 1 and dim == 1 and ((k - 1) * d_) % 2 == 0 and not nd_["excl"]:
                 nd_.update({"causal": False, "sym": True})              # explicit symmetric ConstantPad1d + un-padded conv
             elif r_ < 0.34 and s == 1 and k > 1 and dim == 1:
                 nd_.update({"causal": False, "pm": rng.choice(["zeros", "reflect", "replicate", "circular"])})   # 'same' padding
@@ -201,7 +202,8 @@ def random_arch(rng: random.Random, *, dim: int, max_nodes: int, widths=(2, 3, 4
                 nodes.append({"op": "add", "ins": [b + 4, b + 2]})
         elif kind == "relu" and len(T) > 1:
             # element-wise ops of plinio's "features propagating" list; sigmoid is NOT zero-preserving
-            nodes.append({"op": rng.choices(["relu", "tanh", "silu", "drop", "id", "sig"], weights=[6, 1, 1, 1, 1, 1 if nonzero_ops else 0])[0],
+            nodes.append({"op": rng.choices(["relu", "tanh", "silu", "drop", "id", "sig", "bns"],
+                                            weights=[6, 1, 1, 1, 1, 1 if nonzero_ops else 0, 2.5 if standalone_bn else 0])[0],
                           "ins": [pick(T[1:])]})
         elif kind == "pool":
             c = [t for t in nf if t != 0 and sh[t]["sp"] >= 2 and (dim == 1 or sh[t]["spw"] >= 2)]
@@ -270,6 +272,26 @@ def random_arch(rng: random.Random, *, dim: int, max_nodes: int, widths=(2, 3, 4
             a = norm_arch(a)
         a["nodes"].append({"op": "lin", "ins": [len(a["nodes"])], "out": rng.choice([2, 3, 5]), "bias": True})
     return norm_arch(a)
+
+
+def rejected_fusion(arch) -> bool:
+    """FeatGraph!RejectedFusion: a standalone BatchNorm directly after a searchable layer whose output has another
+    user (plinio raises a ValueError for it), or after a layer object with several call sites."""
+    nodes = arch["nodes"]
+    for i, n in enumerate(nodes, start=1):
+        if n["op"] != "bns":
+            continue
+        p = n["ins"][0]
+        if p == 0:
+            continue
+        pn = nodes[p - 1]
+        if pn["op"] in ("conv", "lin") and not pn.get("excl"):
+            if any(j != i and p in m["ins"] for j, m in enumerate(nodes, start=1)):
+                return True
+            own = pn.get("reuse") or p
+            if sum(1 for m in nodes if m["op"] in ("conv", "lin") and (m.get("reuse") or 0) == own) > 0:
+                return True
+    return False
 
 
 def random_masks(rng: random.Random, arch, *, time_masks=True, p_prune=0.4, noncausal_time=False) -> Dict[str, Any]:
